@@ -1,9 +1,11 @@
 #!/bin/bash
 # like seed_table.sh, but on N private snapshots of /verif and /repo in parallel (the live directories are not touched);
-# writes /verif/SEEDS.md.   usage: tools/seed_table_par.sh [workers=4]
-N=${1:-4}
+# writes /verif/SEEDS.md.   usage: tools/seed_table_par.sh [workers=4] [seed ...]
+# With a seed list only those rows are recomputed; the rows of the other seeds are taken from the existing SEEDS.md (their checks have only been strengthened since).
+N=${1:-4}; shift
 ROWS=/tmp/seedrows; rm -rf $ROWS; mkdir -p $ROWS
-SEEDS=($(cd /verif/seeded && ls -d */ | tr -d /))
+ALL=($(cd /verif/seeded && ls -d */ | tr -d /))
+if [ $# -gt 0 ]; then SEEDS=("$@"); else SEEDS=("${ALL[@]}"); fi
 worker() {
   W=$1; D=/tmp/vsnap_sw$W
   rm -rf $D; mkdir -p $D
@@ -37,6 +39,7 @@ worker() {
 for ((w=0; w<N; w++)); do worker $w & done
 wait
 OUT=/verif/SEEDS.md
+cp $OUT $OUT.prev 2>/dev/null
 {
 echo "# Seeded changes and which check catches them"
 echo ""
@@ -44,6 +47,9 @@ echo "Each row: a change made by a fresh sub-agent that saw only the property te
 echo ""
 echo "| seed | change | exit code under VERIF_SEED 0 and 1 | how it is reported (seed 0) | first line of the report (seed 0) |"
 echo "|---|---|---|---|---|"
-for S in "${SEEDS[@]}"; do cat $ROWS/$S.row; done
+for S in "${ALL[@]}"; do
+  if [ -f $ROWS/$S.row ]; then cat $ROWS/$S.row; else grep "^| $S |" /verif/SEEDS.md.prev | head -1; fi
+done
 } > $OUT
+rm -f $OUT.prev
 echo WROTE $OUT
